@@ -205,7 +205,17 @@ func stdIntrinsics(e *Engine) map[string]intrinsic {
 		}
 		return nil
 	}
-	m["internal/abi.NoEscape"] = func(p *Path, fr *frame, args []value) value { return args[0] }
+	// sync.Pool (single goroutine): Get always allocates through New, Put drops the value
+	m["(*sync.Pool).Get"] = func(p *Path, fr *frame, args []value) value {
+		st := (*args[0].(*value)).(structure)
+		newFn := st[len(st)-1] // New is the last field
+		if isNilFunc(newFn) {
+			return iface{}
+		}
+		return p.call(fr, 0, newFn, nil)
+	}
+	m["(*sync.Pool).Put"] = func(p *Path, fr *frame, args []value) value { return nil }
+	m["internal/abi.NoEscape"] =func(p *Path, fr *frame, args []value) value { return args[0] }
 	m["internal/abi.Escape"] = func(p *Path, fr *frame, args []value) value { return args[0] }
 	m["internal/race.Enabled"] = func(p *Path, fr *frame, args []value) value { return termFalse }
 
